@@ -11,4 +11,5 @@ func raceDisable()                      {}
 func raceEnable()                       {}
 func raceAcquire(_ unsafe.Pointer)      {}
 func raceReleaseMerge(_ unsafe.Pointer) {}
+func raceRelease(_ unsafe.Pointer)      {}
 func raceErrors() int                   { return 0 }
